@@ -582,9 +582,9 @@ def _replay_uiv(model):
 def run(chk):
     only = getattr(chk, "only", None)
     if not only or "proof" in only:
-        chk.guard(run_postponed)
-        chk.guard(run_update_from_calculator)
-        chk.guard(run_update_intermediate)
+        chk.guard(run_postponed, fallback=[_replay_postponed])
+        chk.guard(run_update_from_calculator, fallback=[_replay_ufc])
+        chk.guard(run_update_intermediate, fallback=[_replay_uiv])
         chk.discharge()
     chk.assume("Calculator.change (double buffer, undo, recycled arrays) and the numerical cells are not decided by proof")
     chk.assume("definitions are abstract objects of an uninterpreted sort; update()/update_from_calculator() of a "
